@@ -40,12 +40,12 @@ func init() {
 				stgutg.RegisterUE(ue, mnc, mcc, conn)
 			}
 		}()
-		tv := syscall.NsecToTimeval((3 * time.Second).Nanoseconds())
+		tv := syscall.NsecToTimeval((15 * time.Second).Nanoseconds())
 		syscall.SetsockoptTimeval(fds[1], syscall.SOL_SOCKET, syscall.SO_RCVTIMEO, &tv)
 		buf := make([]byte, 65536)
 		n, err := syscall.Read(fds[1], buf)
 		if err != nil || n <= 0 {
-			out["read_err"] = "no message within 3 s"
+			out["read_err"] = "no message within 15 s"
 			return out
 		}
 		msg := buf[:n]
